@@ -640,6 +640,9 @@ func (f *fx) specCall(e *ast.CallExpr, env *Env) TV {
 			if at, ok := a.GoT.Underlying().(*types.Array); ok {
 				return tvTerm(intLit(at.Len()), tInt)
 			}
+			if mt, ok := a.GoT.Underlying().(*types.Map); ok {
+				return tvTerm(f.mapLen(env.cur, t, mt), tInt)
+			}
 		}
 		unsupp("spec len of %s", t.Sort)
 	case "cap":
